@@ -20,7 +20,7 @@ class Prop:
     time_unit = "virtual seconds (VT part) / simulated seconds (TH part)"
     rule = ("VT: seeded periods, dispose instants and raise positions for schedule_periodic on VirtualTimeScheduler, TestScheduler, "
             "HistoricalScheduler (datetime clock) and CatchScheduler over a virtual scheduler, and for interval / timer(due, period): tick k "
-            "must run exactly at k*period with the state returned by tick k-1, no tick may start after dispose() returned, none after a tick "
+            "must run exactly at k*period (also when a tick itself takes virtual time, less than a period) with the state returned by tick k-1, no tick may start after dispose() returned, none after a tick "
             "raised, interval/timer emit 0,1,2,... at those ticks. TH: the same on EventLoopScheduler, NewThreadScheduler and "
             "TimeoutScheduler with a controlled disposing thread, 0-3 forced pre-emptions, spurious wake-ups and clock drift: ticks never "
             "early (tick k not before k*period after scheduling), state threaded, ticks serial, none after a raise, and after dispose() "
@@ -35,7 +35,8 @@ class Prop:
         if rng.random() < 0.55:
             return {"mode": "vt", "on": rng.choice(["vts", "test", "historical", "catch", "interval", "timer"]), "period": rng.choice([1, 5, 10, 30]),
                     "due": rng.choice([0, 5, 10, 25]), "dispose_at": rng.choice([None, None, 7, 10, 20, 35, 50, 95]), "tie": rng.choice(["early", "late"]),
-                    "raise_at": rng.choice([None, None, None, 0, 1, 3]), "dispose_in_tick": rng.choice([None, None, None, 1, 2])}
+                    "raise_at": rng.choice([None, None, None, 0, 1, 3]), "dispose_in_tick": rng.choice([None, None, None, 1, 2]),
+                    "work": rng.choice([0, 0, 0, 0.5, 2.5, 3])}  # virtual time a tick itself takes (less than the period, else 0)
         return {"mode": "th", "on": rng.choice(["eventloop", "newthread", "timeout"]), "period_ms": rng.choice([1, 2, 5, 10]),
                 "dispose_after_ms": rng.choice([0, 1, 3, 7, 12, 25]), "raise_at": rng.choice([None, None, None, 1, 2]),
                 "dispose_in_tick": rng.choice([None, None, None, 1, 2]), "sched": th.gen_sched(rng, spurious_p=0.3, drift_p=0.3)}
@@ -51,6 +52,8 @@ class Prop:
         on = sc["on"]
         w = vt.World({"vts": "vts", "test": "test", "historical": "historical", "catch": "vts", "interval": "test", "timer": "historical"}[on])
         period = sc["period"]
+        work = sc.get("work", 0)
+        work = work if work < period else 0
         ticks = []  # (seq, t, state)
         handled = []
         box = {}
@@ -70,6 +73,8 @@ class Prop:
 
             def on_next(v):
                 ticks.append((w.tick(), w.now(), v))
+                if work:
+                    w.s.sleep(float(work))
                 if sc["dispose_in_tick"] is not None and len(ticks) - 1 == sc["dispose_in_tick"]:
                     dispose()
 
@@ -83,6 +88,8 @@ class Prop:
             def action(state):
                 k = len(ticks)
                 ticks.append((w.tick(), w.now(), state))
+                if work:
+                    w.s.sleep(float(work))  # the tick takes virtual time: the next one is still due one period after this one started
                 if sc["dispose_in_tick"] is not None and k == sc["dispose_in_tick"]:
                     dispose()
                 if raise_at is not None and k == raise_at:
@@ -95,7 +102,9 @@ class Prop:
             w.at(t0 + sc["dispose_at"], dispose, tie=sc["tie"])
         w.run(horizon)
         dispose()
-        out.digest = (on, period, sc["dispose_at"], sc["tie"], raise_at, sc["dispose_in_tick"], len(ticks))
+        out.digest = (on, period, work, sc["dispose_at"], sc["tie"], raise_at, sc["dispose_in_tick"], len(ticks))
+        if work:
+            out.probes["tick_takes_time"] += 1
         out.sim_time = horizon
         out.nontrivial = len(ticks) >= 2
         out.probes["vt:" + on] += 1
